@@ -1,0 +1,15 @@
+//go:build verif
+// +build verif
+
+package ast
+
+import (
+	t "github.com/google/wuffs/lang/token"
+)
+
+// Hook for /verif property C11 (compiled only with -tags verif): the three
+// kind-dependent ID fields of a node, for the generic AST dump that is
+// compared with the Lean parser model.
+
+// VerifIDs returns n's id0, id1 and id2.
+func (n *Raw) VerifIDs() [3]t.ID { return [3]t.ID{n.id0, n.id1, n.id2} }
